@@ -10,7 +10,7 @@ import (
 	"verifharness/vh"
 )
 
-func init() { register("C20", runC20) }
+func init() { vh.Register("C20", runC20) }
 
 func safeString(id id62.UUID) (s string, panicked any) {
 	defer func() {
@@ -41,7 +41,7 @@ func idFromBig(v *big.Int) id62.UUID {
 	return id
 }
 
-func runC20(cfg *Config) error {
+func runC20(cfg *vh.Config) error {
 	res := vh.NewResult("C20", cfg.Seed)
 	res.Rule = "identifiers: uniform 128-bit, all-zero, all-one, every single bit, leading-zero-byte runs, 62^k and 62^k±1, 2^k-1; parse strings: renderings, signed, underscore, non-ASCII, lengths 0-40, 23+ chars around 2^128, leading zeros; non-trivial = distinct input other than the all-zero id / empty string"
 	cf := &vh.CasesFile{
@@ -51,8 +51,8 @@ func runC20(cfg *Config) error {
 	}
 	distinct := vh.Distinct{}
 	r := cfg.R
-	nIDs := cfg.scale(2000, 100000)
-	nStr := cfg.scale(2000, 100000)
+	nIDs := cfg.Scale(2000, 100000)
+	nStr := cfg.Scale(2000, 100000)
 	caseNo := 0
 
 	// ---- stream 1: identifiers
@@ -222,7 +222,7 @@ func runC20(cfg *Config) error {
 	}
 
 	// ---- stream 3: NewHash is the first 16 bytes of SHA-1(namespace ++ inputs...), and pure
-	nHash := cfg.scale(200, 5000)
+	nHash := cfg.Scale(200, 5000)
 	for i := 0; i < nHash; i++ {
 		ns := string(r.Bytes(r.Range(0, 20)))
 		var ins []string
@@ -246,7 +246,7 @@ func runC20(cfg *Config) error {
 		for _, in := range ins {
 			parts = append(parts, vh.BytesTerm(in))
 		}
-		if len(ns)+len(strings.Join(ins, "")) <= 120 && i < cfg.scale(60, 400) {
+		if len(ns)+len(strings.Join(ins, "")) <= 120 && i < cfg.Scale(60, 400) {
 			cf.Terms = append(cf.Terms, fmt.Sprintf("CHash %s [%s] %s", vh.BytesTerm(ns), strings.Join(parts, ";"), vh.NList(a[:])))
 			res.Cases = append(res.Cases, vh.CaseRec{Case: caseNo, Stream: "hash", Input: fmt.Sprintf("%q %q", ns, ins), Impl: fmt.Sprintf("%x", a[:])})
 		}
